@@ -22,6 +22,7 @@ struct WorldI : World {
     k->put_exec(t.home + "/bin/qmail-queue", "qmail-queue", 04711, t.uids["qmailq"], t.gid_qmail);
     k->passwd.push_back(PwEnt{"user1", 1001, 1001, "/home/user1", "/bin/sh"});
     for (auto &p : plan->knobs["control"].o) k->put_file(t.home + "/control/" + p.first, p.second.str());
+    if (plan->knobs.has("mft")) { k->mkdir_p("/home/user1", 0755, 1001, 1001); k->put_file("/home/user1/mft", plan->knobs.gets("mft"), 0644, 1001, 1001); }   // $QMAILMFTFILE: the user's mailing lists (Mail-Followup-To is generated when one of them is a recipient)
   }
   void driver() override {
     std::vector<std::string> argv = {"qmail-inject"}; for (auto &a : plan->knobs["args"].a) argv.push_back(a.str());
